@@ -10,9 +10,9 @@
    schedule.  Labels record what happened: LRun k t (the body of task t takes a step on worker id k),
    LObs k a mb nx vals (an await/next of task a returned the values vals of mailbox mb), LCancel k a mb n
    (task a executed `cancel` on its mailbox mb), ... *)
-From Coq Require Import List Arith Bool.
+From Coq Require Import List Arith Bool Lia.
 Import ListNotations.
-From BQ Require Import rt.CancelM rt.CancelThm.
+From BQ Require Import rt.CancelM rt.CancelThm rt.CancelTree rt.CancelTreeThm.
 
 (* After `cancel fut` (mailbox mb of worker k) executes - explicitly or through task completion - no await/next on that
    worker ever returns a value of that mailbox again, in any continuation of any schedule, and the mailbox stays
@@ -217,6 +217,28 @@ Proof. eexists. eexists. split; [vm_compute; reflexivity|]. vm_compute. auto 20.
    co-simulation and the oracle only): every mailbox of a worker is owned by a task in its _tasks. *)
 Definition C12_no_orphans_full : Prop :=
   forall P nw evs s l, run true true P (init_sys nw) evs = Some (s, l) -> forallb no_orphans (sy_workers s) = true.
+
+(* Manager topologies.  For every tree of managers (node 0 = server, node i > 0 hangs under parent i < i, leaves are
+   workers; managers of managers allowed) and every schedule of the CANCEL traffic - a manager forwards a CANCEL from
+   below to its boss, the server and every manager broadcast a CANCEL down every link ([route_cancel], co-simulated
+   against the real Manager / DetachedServer handlers on every run) - once nothing is in flight every worker has
+   handled every CANCEL that any worker issued, wherever the cancelled tasks were placed. *)
+Theorem C12_cancel_reaches_every_worker : forall T, wf_topo T -> forall evs s,
+  trun T (init_tree T) evs = Some s -> tquiet s = true ->
+  forall c w, In c (ts_issued s) -> worker T w -> exists h, nth_error (ts_handled s) w = Some h /\ In c h.
+Proof. exact cancel_reaches_every_worker. Qed.
+
+(* server -> 2 managers (nodes 1, 2) -> workers 3 (under 1) and 4, 5 (under 2): worker 3 cancels, all three handle it *)
+Example C12_tree_nonvacuous :
+  let T := mkTopo [0; 0; 0; 1; 2; 2] in
+  wf_topo T /\ worker T 3 /\ worker T 4 /\ worker T 5 /\
+  exists s, trun T (init_tree T) [TIssue 3 (4, 0, 0); TUp 3; TUp 1; TDown 2; TDown 1; TDown 5; TDown 3; TDown 4] = Some s
+    /\ tquiet s = true /\ ts_handled s = [[]; []; []; [(4, 0, 0)]; [(4, 0, 0)]; [(4, 0, 0)]].
+Proof. intros T. split. intros i P L. unfold nnodes, T in L. simpl in L. do 6 (destruct i as [|i]; [unfold parent, T; simpl; lia|]). lia.
+  assert (W : forall w, (w = 3 \/ w = 4 \/ w = 5) -> worker T w).
+  { intros w H. unfold worker, nnodes, T. simpl. destruct H as [H|[H|H]]; subst w; (split; [lia|split; [lia|vm_compute; reflexivity]]). }
+  split. apply W; auto. split. apply W; auto. split. apply W; auto.
+  eexists. split; [vm_compute; reflexivity|]. vm_compute. auto. Qed.
 
 (* non-vacuity: a run in which a cancel executes, a result is later discarded and CANCEL is delivered *)
 Example C12_nonvacuous :
